@@ -232,13 +232,19 @@ def run(cfg, cases, seed=1, limit=300, only=None, keep_src=None, priority=(), ho
         return stats, []
     ok, out, err = cached_build_and_run(cfg, modules, keep_src, hostile, miri)
     problems = []
-    if not ok:
-        stats['compile_errors'] = err.count('error')
-        # attribute errors to modules by line number
+    # items whose real expansion does not compile are attributed by line number, reported, and left out of the next build; rustc
+    # reports in passes (resolution and type errors first, deny-by-default lints such as `overflowing_literals` only once those are
+    # gone), so this is repeated until the crate builds
+    all_bad = set()
+    for round_ in range(6):
+        if ok:
+            break
+        stats['compile_errors'] += err.count('error')
+        cur = [m for m in modules if m[0] not in all_bad]
         src = probe.PRELUDE + (probe.ZPRELUDE if zero else '') + (probe.HOSTILE_PRELUDE if hostile else '')
         base = src.count('\n')
         starts, n = [], base
-        for idx, m in modules:
+        for idx, m in cur:
             starts.append((n + 1, idx))
             n += m.count('\n') + 1
         bad = {}
@@ -254,14 +260,13 @@ def run(cfg, cases, seed=1, limit=300, only=None, keep_src=None, priority=(), ho
             cid, it, pit, vals = plan[idx]
             problems.append(dict(kind='compile', cfg=cfg, case=cid, src=item_txt(pit), errors=msgs[:4]))
         if not bad:
-            raise runner.Infra('probe crate failed to build:\n' + err[-3000:])
-        # rebuild without the offending items
-        keep = [m for m in modules if m[0] not in bad]
-        ok, out, err2 = cached_build_and_run(cfg, keep, None, hostile, miri)
-        if not ok:
-            raise runner.Infra('probe crate failed to build after removing failing items:\n' + err2[-3000:])
-        err = err2
-        plan = [p for i, p in enumerate(plan) if i not in bad]
+            raise runner.Infra('probe crate failed to build%s:\n' % (' after removing failing items' if all_bad else '') + err[-3000:])
+        all_bad |= set(bad)
+        ok, out, err = cached_build_and_run(cfg, [m for m in modules if m[0] not in all_bad], None, hostile, miri)
+    if not ok:
+        raise runner.Infra('probe crate failed to build after removing failing items six times:\n' + err[-3000:])
+    if all_bad:
+        plan = [p for i, p in enumerate(plan) if i not in all_bad]
         lines = [probe.sx_observe(cid, cfg, pit, vals) for cid, it, pit, vals in plan]
     iobs = probe.parse_obs(out)
     aborted = {}
@@ -437,6 +442,7 @@ CRATEOPT_SRC = r'''#![allow(warnings)]
 use std::marker::PhantomData;
 pub mod reexp { pub use ::derive_where; ZREEXP }
 use ::derive_where as dwalias;
+extern crate derive_where as dw_root;
 ZALIAS
 pub struct NoTraits;
 pub mod a { use super::*; use ::derive_where::derive_where;
@@ -449,6 +455,10 @@ pub mod d { use std::marker::PhantomData; use ::derive_where::derive_where;
     #[derive_where(crate = super::reexp::derive_where)] #[derive_where(Clone, Debug, PartialEq; T)] pub struct S<T, U>(pub T, pub PhantomData<U>); }
 pub mod e { use std::marker::PhantomData; use ::derive_where::derive_where;
     #[derive_where(crate = "crate::reexp::derive_where")] #[derive_where(Clone, Debug, PartialEq; T)] pub struct S<T, U>(pub T, pub PhantomData<U>); }
+pub mod f { use std::marker::PhantomData; use ::derive_where::derive_where;
+    /// a local module named like the renamed crate: only the path WITH its leading `::` reaches the real crate
+    pub mod dw_root {}
+    #[derive_where(crate = ::dw_root)] #[derive_where(Clone, Debug, PartialEq; T)] pub struct S<T, U>(pub T, pub PhantomData<U>); }
 ZMODS
 fn main() {
     let x = a::S::<u8, NoTraits>(3, PhantomData); assert!(x.clone() == x); assert_eq!(format!("{:?}", x), "S(3, PhantomData<crateopt::NoTraits>)");
@@ -456,15 +466,20 @@ fn main() {
     let z = c::S::<u8, NoTraits>(5, PhantomData); assert!(z.clone() == z);
     let w = d::S::<u8, NoTraits>(6, PhantomData); assert!(w.clone() == w);
     let v = e::S::<u8, NoTraits>(7, PhantomData); assert!(v.clone() == v);
+    let u = f::S::<u8, NoTraits>(8, PhantomData); assert!(u.clone() == u);
     ZMAIN
     println!("CRATEOPT-OK");
 }
 '''
 CRATEOPT_Z = dict(
     ZREEXP='pub use ::zeroize;',
-    ZALIAS='use ::zeroize as zalias;',
+    ZALIAS='use ::zeroize as zalias; extern crate zeroize as zz_root;',
     ZMODS=r'''pub mod za { use super::*; use ::derive_where::derive_where;
     #[derive_where(Zeroize(crate = crate::reexp::zeroize); T)] pub struct S<T, U>(pub T, pub PhantomData<U>); }
+pub mod zd { use super::*; use ::derive_where::derive_where;
+    /// a local module named like the renamed zeroize crate: only `::zz_root` with its leading `::` reaches the real one
+    pub mod zz_root {}
+    #[derive_where(Zeroize(crate = ::zz_root); T)] pub struct S<T, U>(pub T, pub PhantomData<U>); }
 pub mod zb { use super::*; use ::derive_where::derive_where;
     #[derive_where(Zeroize(crate = zalias), ZeroizeOnDrop(crate = zalias))] pub enum S<T: ::zeroize::Zeroize, U> { A(T), B { x: PhantomData<U> } } }
 pub mod zc { use super::*; use ::derive_where::derive_where;
@@ -472,7 +487,7 @@ pub mod zc { use super::*; use ::derive_where::derive_where;
     pub struct Tricky(pub u8); impl Tricky { pub fn zeroize(&mut self) {} } impl ::zeroize::Zeroize for Tricky { fn zeroize(&mut self) { self.0 = 0; } }
     #[derive_where(Zeroize(crate = "crate::reexp::zeroize"); T)] pub struct S<T, U> { #[derive_where(Zeroize(fqs))] pub a: Tricky, pub t: T, pub b: PhantomData<U> } }
 ''',
-    ZMAIN=r'''{ use ::zeroize::Zeroize; let mut s = za::S::<u8, NoTraits>(9, PhantomData); s.zeroize(); assert_eq!(s.0, 0);
+    ZMAIN=r'''{ use ::zeroize::Zeroize; let mut r = zd::S::<u8, NoTraits>(9, PhantomData); r.zeroize(); assert_eq!(r.0, 0); let mut s = za::S::<u8, NoTraits>(9, PhantomData); s.zeroize(); assert_eq!(s.0, 0);
       let mut t = zc::S::<u8, NoTraits> { a: zc::Tricky(9), t: 5, b: PhantomData }; t.zeroize(); assert_eq!((t.a.0, t.t), (0, 0), "the fqs field of an item with a crate option was not wiped through the trait");
       let mut u = zb::S::<u8, NoTraits>::A(9); u.zeroize(); if let zb::S::A(v) = &u { assert_eq!(*v, 0); } }''')
 
@@ -695,7 +710,7 @@ def run_crateopt(cfg):
     if rc != 0 or 'CRATEOPT-OK' not in out:
         problems.append(dict(kind='compile', scope='crate-option', cfg=cfg, case='crateopt', src='items with `crate = <relative path | crate:: | self:: | super:: | alias | "string">` options (harness/tieb.py CRATEOPT_SRC)',
                              errors=[l[:300] for l in err.split('\n')[:4]]))
-    return dict(cfg=cfg, items=5 + (3 if zero else 0), ok=not problems), problems
+    return dict(cfg=cfg, items=6 + (4 if zero else 0), ok=not problems), problems
 
 
 if __name__ == '__main__':
